@@ -436,7 +436,8 @@ def k1_call(m):
 
 
 def comp(m, dense, j):
-    """1-based index of the ode call (= probe component) whose derivative is k_j of step 2."""
+    """1-based index of the ode call (= probe component) whose derivative is k_j of step 2
+    (dense: whether step 1 computed the dense-only stages, which shifts the calls of step 2)."""
     return k1_call(m) if j == 1 else 1 + n_step(m, dense) + 1 + (j - 2)
 
 
